@@ -15,9 +15,8 @@ func c05cfg(name string) (*vHistCfg, int, int) {
 		caches: []int{10000}, fast: []bool{true, false}, thresh: []int{101, 250, 0}, refHash: true}
 	maxV, maxW := 2, 1
 	if vTier() == "thorough" {
-		maxV, maxW = 3, 2
-		cfg.nKeys = 3
-		cfg.thresh = []int{101, 150, 250, 400, 0}
+		maxV, maxW = 3, 1
+		cfg.thresh = []int{101, 150, 250, 0}
 	}
 	return cfg, maxV, maxW
 }
